@@ -65,9 +65,10 @@ const SCALAR_POOL: &[&str] = &["DateTime", "JSON", "BigInt", "URL"];
 const ENUM_POOL: &[&str] = &["Role", "Color", "Sort"];
 const ENUM_VALUE_POOL: &[&str] = &["ADMIN", "USER", "GUEST", "RED", "GREEN", "BLUE", "ASC", "DESC", "on", "type", "Query"];
 const INPUT_POOL: &[&str] = &["UserInput", "PostFilter", "Paging"];
-const INTERFACE_POOL: &[&str] = &["Node", "Entity", "Named"];
-const OBJECT_POOL: &[&str] = &["User", "Post", "Comment", "Tag", "Image"];
-const UNION_POOL: &[&str] = &["SearchResult", "Media"];
+const INTERFACE_POOL: &[&str] = &["Node", "Entity", "Named", "_Timestamped"];
+// a single leading underscore is an ordinary name (only `__` is reserved): Apollo Federation style
+const OBJECT_POOL: &[&str] = &["User", "Post", "Comment", "Tag", "Image", "_Service"];
+const UNION_POOL: &[&str] = &["SearchResult", "Media", "_Entity"];
 const FIELD_POOL: &[&str] = &[
     "id", "name", "title", "body", "author", "posts", "comments", "tags", "node", "search", "friends",
     "count", "role", "createdAt", "meta", "media", "score", "flags", "matrix", "owner",
